@@ -110,7 +110,7 @@ func (f *leaseFacade) CasByVersion(ctx context.Context, r kvs.Record) (kvs.Recor
 		f.s.log(map[string]any{"e": "cas", "p": f.p, "res": "dead", "exp": 0, "n": n})
 		return kvs.Record{}, errInjected
 	}
-	if (n == f.faultAt || f.faultPair && n == f.faultAt+1 || f.faultOdd && n%2 == 1) && f.faultKnd == "lost" {
+	if fa := atomic.LoadInt32(&f.faultAt); (n == fa || f.faultPair && n == fa+1 || f.faultOdd && n%2 == 1) && f.faultKnd == "lost" {
 		f.s.log(map[string]any{"e": "cas", "p": f.p, "res": "lost", "exp": 0, "n": n})
 		return kvs.Record{}, errInjected
 	}
@@ -240,6 +240,7 @@ type leaseScenario struct {
 	Pair    bool   // the fault hits two consecutive renewal calls
 	Mix     int    // lease lengths of the other parties: 0 same, 1 three times longer, 2 four times shorter
 	Distant bool   // an unrelated, much later timer is pending (and the dispatcher asleep towards it) when the lock is acquired
+	Down    bool   // the holder's provider is shut down while the lock is held; the next renewal then fails transiently
 }
 
 func runLeaseScenario(sc leaseScenario) (*leaseSys, bool) {
@@ -261,6 +262,7 @@ func runLeaseScenario(sc leaseScenario) (*leaseSys, bool) {
 		defer fu.Cancel()
 		time.Sleep(30 * time.Millisecond) // let the dispatcher go to sleep towards it
 	}
+	holderDown := false
 	if !holder.locker.TryLock(context.Background()) {
 		s.log(map[string]any{"e": "harness-error", "what": "initial TryLock failed"})
 		return s, false
@@ -287,6 +289,15 @@ func runLeaseScenario(sc leaseScenario) (*leaseSys, bool) {
 	}
 	switch sc.Kind {
 	case "hold":
+		if sc.Down {
+			// Shutdown stops new acquisitions; the lock that is held stays held until Unlock, so its lease must be kept -
+			// also across a renewal attempt that fails transiently afterwards
+			observe(t0+ttl+ttl/5, true)
+			holder.prov.Shutdown()
+			holderDown = true
+			holder.fac.faultKnd = "lost"
+			atomic.StoreInt32(&holder.fac.faultAt, atomic.LoadInt32(&holder.fac.casCount)+1)
+		}
 		observe(t0+int64(sc.Periods)*ttl, true)
 		s.log(map[string]any{"e": "rel", "p": 1})
 		holder.locker.Unlock()
@@ -554,7 +565,10 @@ func runLeaseScenario(sc leaseScenario) (*leaseSys, bool) {
 		s.probe()
 	}
 	s.log(map[string]any{"e": "end"})
-	for _, p := range ps {
+	for i, p := range ps {
+		if i == 0 && holderDown {
+			continue // (Shutdown closes a channel: once only)
+		}
 		p.prov.Shutdown()
 	}
 	stalled := atomic.LoadInt64(&s.stall) > ttl/8
@@ -618,6 +632,7 @@ func driveLease(opt *Options) error {
 			scs = append(scs, leaseScenario{Kind: "stalecas", TTL: ttl, Pair: true, FaultAt: 1, Fault: "lost"})
 			scs = append(scs, leaseScenario{Kind: "hold", TTL: ttl, Periods: 4, Mix: 2})
 			scs = append(scs, leaseScenario{Kind: "handoff", TTL: ttl, Phase: 6, Mix: 2})
+			scs = append(scs, leaseScenario{Kind: "hold", TTL: ttl, Periods: 5, Down: true})
 			// every other renewal call fails transiently, over a long hold
 			scs = append(scs, leaseScenario{Kind: "hold", TTL: ttl, Periods: 10, FaultAt: -1, Fault: "lost"})
 			for ph := 0; ph < 8; ph++ {
